@@ -27,6 +27,9 @@ pub enum BAct {
     Pipe { kind: u8, full: bool },
     /// an iterator instance nobody drains: 0 SignalOnly, 1 Raw, 2 Origin
     Iter { exf: u8 },
+    /// one pipe (kind as above) serving two registrations through dup'ed descriptors; the
+    /// first-made registration is removed again before the burst, the pipe is full
+    PipeSibling { kind: u8 },
 }
 
 #[derive(Clone, Debug, Serialize, Deserialize)]
@@ -44,11 +47,12 @@ pub enum C03Case {
 
 fn burst_strategy() -> BoxedStrategy<BurstCase> {
     let act = prop_oneof![
-        1 => Just(BAct::Flag),
-        1 => Just(BAct::Usize),
-        1 => Just(BAct::ShutdownFalse),
-        3 => (0u8..4, any::<bool>()).prop_map(|(kind, full)| BAct::Pipe { kind, full }),
-        3 => (0u8..3).prop_map(|exf| BAct::Iter { exf }),
+        4 => Just(BAct::Flag),
+        4 => Just(BAct::Usize),
+        4 => Just(BAct::ShutdownFalse),
+        12 => (0u8..4, any::<bool>()).prop_map(|(kind, full)| BAct::Pipe { kind, full }),
+        12 => (0u8..3).prop_map(|exf| BAct::Iter { exf }),
+        1 => (0u8..4).prop_map(|kind| BAct::PipeSibling { kind }),
     ];
     (vec(act, 1..5), prop_oneof![1 => 1u16..50, 2 => 300u16..1500, 1 => 1500u16..4000])
         .prop_map(|(actions, n)| BurstCase { actions, n })
@@ -114,6 +118,33 @@ fn burst_child(case: &BurstCase, fd: i32) {
                 raw_keep.push(fds[0]);
                 let _ = signal_hook::low_level::pipe::register_raw(SIG, fds[1]);
             }
+            BAct::PipeSibling { kind } => {
+                let mut fds = [0i32; 2];
+                let r = unsafe {
+                    match kind % 4 {
+                        0 => libc::pipe(fds.as_mut_ptr()),
+                        1 => libc::socketpair(libc::AF_UNIX, libc::SOCK_STREAM, 0, fds.as_mut_ptr()),
+                        2 => libc::socketpair(libc::AF_UNIX, libc::SOCK_DGRAM, 0, fds.as_mut_ptr()),
+                        _ => libc::socketpair(libc::AF_UNIX, libc::SOCK_SEQPACKET, 0, fds.as_mut_ptr()),
+                    }
+                };
+                if r != 0 {
+                    continue;
+                }
+                let second = unsafe { libc::dup(fds[1]) };
+                raw_keep.push(fds[0]);
+                let first_id = signal_hook::low_level::pipe::register_raw(SIG, fds[1]);
+                let _ = signal_hook::low_level::pipe::register_raw(SIG, second);
+                if let Ok(id) = first_id {
+                    signal_hook::low_level::unregister(id);
+                }
+                // fill it through the surviving registration itself (no descriptor flag is touched
+                // by the harness: the flags live on the shared open file description)
+                emit(fd, &json!({"k": "burst-start", "n": 70_000, "what": "filling the shared pipe through the surviving registration"}));
+                for _ in 0..70_000 {
+                    unsafe { libc::raise(SIG) };
+                }
+            }
             BAct::Iter { exf } => match exf % 3 {
                 0 => {
                     if let Ok(s) = SignalsInfo::<SignalOnly>::new(&[SIG]) {
@@ -152,7 +183,7 @@ fn run_burst(case: &BurstCase) -> CaseReport {
     let mut rep = CaseReport::default();
     rep.hash = hash_of(&format!("{:?}", case));
     rep.class("real-burst");
-    rep.nontrivial = case.actions.iter().any(|a| matches!(a, BAct::Pipe { full: true, .. } | BAct::Iter { .. })) && case.n >= 300;
+    rep.nontrivial = case.actions.iter().any(|a| matches!(a, BAct::Pipe { full: true, .. } | BAct::Iter { .. } | BAct::PipeSibling { .. })) && case.n >= 300;
     rep.nontrivial_by = vec![("C03".into(), rep.nontrivial)];
     rep.sample = Some(json!({"burst": case, "records": recs, "end": format!("{:?}", end)}));
     match &end {
@@ -209,6 +240,7 @@ fn extra(def: &PropDef, _args: &WorkerArgs, report: &mut WorkerReport) {
         }
     }
     cases.push(BurstCase { actions: vec![BAct::Flag, BAct::Usize, BAct::ShutdownFalse], n: 500 });
+    cases.push(BurstCase { actions: vec![BAct::PipeSibling { kind: 0 }], n: 500 });
     for c in cases {
         let case = C03Case::Burst(c);
         let rep = run_case(&case);
@@ -231,7 +263,7 @@ fn replay(v: &Value) -> CaseReport {
 pub static C03: PropDef = PropDef {
     id: "C03",
     prefixes: &["C03/", "crash/sig=6"],
-    rule: "three proptest-generated families: (a) registry programs (register/unregister/deliver on 3 signals, nested deliveries) with isolated deliveries - every other thread frozen, on a fresh or on the interrupted thread, one forked child per case; (b) iterator scenarios (3 exfiltrators x 4 consumer modes) whose exfiltrating actions run under the same rule; (c) bursts of 1..4000 real deliveries through generated sets of built-in actions (flag, usize flag, conditional shutdown with a false condition, self-pipe on pipe/stream/dgram/seqpacket pre-filled to EAGAIN or empty, undrained iterator instances), one burst per built-in action kind on every run. Oracle: inside a delivery only atomic load/store/RMW and the wake write (no lock, yield, spin, block), bounded own atomic steps, zero heap operations by library code (global allocator wrapper), an isolated delivery finishes alone, bursts finish (watchdog + /proc syscall evidence), child neither aborted nor killed. Non-trivial = delivery began strictly inside a register/unregister/iterator call, or a burst >=300 against a full self-pipe or undrained iterator; distinct = hash of realised interleaving / case value",
+    rule: "three proptest-generated families: (a) registry programs (register/unregister/deliver on 3 signals, nested deliveries) with isolated deliveries - every other thread frozen, on a fresh or on the interrupted thread, one forked child per case; (b) iterator scenarios (3 exfiltrators x 4 consumer modes) whose exfiltrating actions run under the same rule; (c) bursts of 1..4000 real deliveries through generated sets of built-in actions (flag, usize flag, conditional shutdown with a false condition, self-pipe on pipe/stream/dgram/seqpacket pre-filled to EAGAIN or empty, one pipe shared by two registrations through dup'ed descriptors with the first one removed again, undrained iterator instances), one burst per built-in action kind on every run. Oracle: inside a delivery only atomic load/store/RMW and the wake write (no lock, yield, spin, block), bounded own atomic steps, zero heap operations by library code (global allocator wrapper), an isolated delivery finishes alone, bursts finish (watchdog + /proc syscall evidence), child neither aborted nor killed. Non-trivial = delivery began strictly inside a register/unregister/iterator call, or a burst >=300 against a full self-pipe or undrained iterator; distinct = hash of realised interleaving / case value",
     assumptions: &[
         "deliveries in families (a),(b) are simulated: the real dispatcher is called at instrumented points; family (c) uses real signals",
         "arrival points are shim operations; locks taken through primitives the shim does not see are visible only if they allocate or block for real (family c)",
